@@ -79,6 +79,8 @@ Inductive sphase :=
 | SWatch       (* stream.run in progress: the watcher waits for connStatusReconnecting *)
 | SWaitConn    (* watcher fired, stream status Resuming, supervisor in WaitUntil(ctx, Connected) *)
 | SResuming    (* resume request written on wire incarnation s_held *)
+| SDraining    (* the user's Close swapped the stream status to Draining and wrote the close request on
+                  s_held; its response is pending.  Another Close meanwhile returns "already draining" *)
 | SClosed (ev byuser : bool).  (* stream context cancelled; ev: a closed event was registered *)
 Inductive rkind := KOpenUp | KOpenDown | KMeta | KCall | KCallWait.
 Inductive rphase :=
@@ -133,7 +135,8 @@ Inductive ev :=
 | EFail (k : N)             (* request k notices that the wire connection it used is closed *)
 | ECtx (k : N)              (* the context of request k ends *)
 | EWrite (i : N)            (* the user writes into stream i *)
-| EStreamClose (i : N)      (* the user closes stream i *)
+| EStreamClose (i : N)      (* the user calls Close on stream i (any number of times, overlapping or not) *)
+| EStreamCloseResp (i : N)  (* the exchange of stream i's close request ends: response, or its wire connection closed *)
 | ECloseCall                (* Conn.Close: Swap(Closed) *)
 | ECloseDisc                (* Conn.Close: SendDisconnect hands Disconnect to the transport *)
 | ECloseWire.               (* Conn.Close: wireConn.Close() *)
@@ -382,17 +385,27 @@ Definition write_step (c : conn) (i : N) : conn * list out :=
   | None => (c, [])
   end.
 
-(* Upstream.Close / Downstream.Close by the user *)
+(* Upstream.Close / Downstream.Close by the user: state.Swap(Draining) guards the whole call, so a Close
+   that overlaps another one returns "already draining" without touching the wire *)
 Definition stream_close_step (c : conn) (i : N) : conn * list out :=
   match find_s i (c_streams c) with
   | Some s =>
       match s_phase s with
       | SClosed _ _ => (c, [])
+      | SDraining =>
+          (* Upstream: "already draining", nothing else.  Downstream: closeWithError starts with
+             `defer d.cancel()`, so the overlapping call, while returning "already draining", cancels the
+             stream under the first call: the stream's dispatcher stops and the closed event that the
+             first call registers when its response arrives is never delivered *)
+          if s_down s
+          then (set_streams c (upd_s i (fun s => set_phase s (SClosed false true)) (c_streams c)), [])
+          else (c, [])
       | SWatch =>
           if is_closed c then (c, [])
           else if (s_held s =? c_gen c) && writable c then
-            (set_streams c (upd_s i (fun s => set_buf (set_phase s (SClosed true true)) false) (c_streams c)),
-             (if s_buf s then [OChunk (c_gen c) i] else []) ++ [OCloseReq (c_gen c) i; OStreamClosed i false])
+            (* final flush, then the close request; the response is awaited *)
+            (set_streams c (upd_s i (fun s => set_buf (set_phase s SDraining) false) (c_streams c)),
+             (if s_buf s then [OChunk (c_gen c) i] else []) ++ [OCloseReq (c_gen c) i])
           else if fix_f19 (c_cfg c)
           then (set_streams c (upd_s i (fun s => set_phase s (SClosed true true)) (c_streams c)), [OStreamClosed i false])
           else (set_streams c (upd_s i (fun s => set_phase s (SClosed false true)) (c_streams c)), [])
@@ -402,6 +415,24 @@ Definition stream_close_step (c : conn) (i : N) : conn * list out :=
           else if fix_f19 (c_cfg c)
           then (set_streams c (upd_s i (fun s => set_phase s (SClosed true true)) (c_streams c)), [OStreamClosed i false])
           else (set_streams c (upd_s i (fun s => set_phase s (SClosed false true)) (c_streams c)), [])
+      end
+  | None => (c, [])
+  end.
+
+Definition stream_close_resp_step (c : conn) (i : N) : conn * list out :=
+  match find_s i (c_streams c) with
+  | Some s =>
+      match s_phase s with
+      | SDraining =>
+          if (s_held s =? c_gen c) && writable c then
+            (set_streams c (upd_s i (fun s => set_phase s (SClosed true true)) (c_streams c)), [OStreamClosed i false])
+          else if c_wclosed c || negb (s_held s =? c_gen c) then
+            (* the wire connection was closed under the exchange: formerly no event (F19), now the event *)
+            if fix_f19 (c_cfg c)
+            then (set_streams c (upd_s i (fun s => set_phase s (SClosed true true)) (c_streams c)), [OStreamClosed i false])
+            else (set_streams c (upd_s i (fun s => set_phase s (SClosed false true)) (c_streams c)), [])
+          else (c, [])
+      | _ => (c, [])
       end
   | None => (c, [])
   end.
@@ -439,6 +470,7 @@ Definition step (c : conn) (e : ev) : conn * list out :=
   | ECtx k => ctx_step c k
   | EWrite i => write_step c i
   | EStreamClose i => stream_close_step c i
+  | EStreamCloseResp i => stream_close_resp_step c i
   | ECloseCall => close_call_step c
   | ECloseDisc => close_disc_step c
   | ECloseWire => close_wire_step c
@@ -502,6 +534,8 @@ Definition resumed_of (o : list out) : list N :=
   concat (map (fun x => match x with OResumed i => [i] | _ => [] end) o).
 Definition sclosed_of (o : list out) : list (N * bool) :=
   concat (map (fun x => match x with OStreamClosed i e => [(i, e)] | _ => [] end) o).
+Definition closereqs_of (o : list out) : list N :=
+  concat (map (fun x => match x with OCloseReq _ i => [i] | _ => [] end) o).
 Definition rets_of (o : list out) : list (N * N) :=
   concat (map (fun x => match x with ORet k r => [(k, rc_code r)] | _ => [] end) o).
 Definition reqs_of (o : list out) : list (N * N) :=
@@ -628,6 +662,8 @@ Record cl_case := mkCl {
   cl_connects_after : N;              (* dial attempts after Close returned *)
   cl_disc_after : N; cl_reconn_after : N;   (* handler calls after Close was called *)
   cl_sclosed : list (N * bool);       (* stream closed events over the whole history, sorted *)
+  cl_closereqs : list N;              (* stream close requests on the wire (stream), one entry per request, sorted *)
+  cl_closereq_max : N;                (* largest number of close requests of one stream on one wire incarnation *)
   cl_leaked : N;                      (* goroutines with library frames 2 s after both ends are closed *)
   cl_panic : bool;
   cl_close_rets : list N              (* class codes of the Close calls *)
@@ -650,6 +686,7 @@ Definition cl_corr (c : cl_case) : bool :=
   && forallb (fun m => rc_code (stream_api_closed (stream_byuser (fst r) (fst (fst m))) (api_of_code (snd (fst m)))) =? snd m)
              (cl_stream_matrix c)
   && list_eqb N.eqb (sortN (map codeb (sclosed_of o))) (map codeb (cl_sclosed c))
+  && list_eqb N.eqb (sortN (closereqs_of o)) (cl_closereqs c)
   && Bool.eqb (has_panic o) (cl_panic c)
   && Bool.eqb (0 <? leaked_sups (fst r)) (0 <? cl_leaked c)
   && (cl_wire_after c =? N.of_nat (length (wire_after_disconnect o))).
@@ -667,6 +704,8 @@ Definition c10_ok (c : cl_case) : bool :=
   (* notifications at most once *)
   && (cl_disc_after c <=? 1) && (cl_reconn_after c =? 0)
   && forallb (fun e => count_eq (fst e) (map fst (cl_sclosed c)) =? 1) (cl_sclosed c)
+  (* however many sequential or overlapping Close calls: at most one close request per stream *)
+  && forallb (fun i => count_eq i (cl_closereqs c) =? 1) (cl_closereqs c) && (cl_closereq_max c <=? 1)
   (* nothing left behind *)
   && (cl_leaked c =? 0) && negb (cl_panic c).
 
